@@ -1,6 +1,8 @@
 import Gomjml.Core.MapIter
 import Gomjml.Core.Tag
 import Gomjml.Gen.Misc
+import Gomjml.Gen.TextReads
+import Gomjml.Core.Tree
 /-! # C12 — non-semantic variation of source or options does not change the email (property theorems only) -/
 namespace Gomjml.Props.C12
 
@@ -40,5 +42,34 @@ theorem C12_debug_sites :
 /-- non-vacuity -/
 example : Gomjml.Tag.bytes (Gomjml.Tag.renderOpen (Gomjml.Tag.addAttr ⟨"div", [("role", "x")], ["k"], [("color", "red")]⟩ "data-mj-debug-text" "true"))
     = "<div role=\"x\" data-mj-debug-text=\"true\" class=\"k\" style=\"color:red;\">" := by decide
+
+/-! ### indentation and line breaks between structural elements -/
+
+/-- the tree builder is the inverse of serialisation in both directions (`C18_tree_sound` for the other one): whatever white
+    space stands between the elements of the source, the element structure that comes out is the one that went in — character
+    data becomes text parts of its parent and nothing else -/
+theorem C12_tree_structure (n : Gomjml.Tree.Node) (rest : List Gomjml.Tree.XTok) : Gomjml.Tree.parseDoc (n.toks ++ rest) = some n :=
+  Gomjml.Tree.parseDoc_complete n rest
+
+/-- structural components (body, section, column, group, wrapper, hero and the root) whose rendering looks at character data
+    at all, and how: the column only at the trimmed text of a column without children; the section only at the text of a section
+    without children, and only when its trimmed text is not empty (`needsContentMSOTable`) — so white space between structural
+    elements never reaches the output -/
+def structuralTextReads : List (String × String × String × String) :=
+  [("mjml/components.(*MJColumnComponent).renderColumnWithStylesToWriter", "mjml/components.MJColumnComponent", "Text", "trimmed"),
+   ("mjml/components.(*MJSectionComponent).Render", "mjml/components.MJSectionComponent", "Text", "as-is")]
+
+def structuralTypes : List String :=
+  ["mjml/components.MJBodyComponent", "mjml/components.MJSectionComponent", "mjml/components.MJColumnComponent",
+   "mjml/components.MJGroupComponent", "mjml/components.MJWrapperComponent", "mjml/components.MJHeroComponent",
+   "mjml/components.MJHeadComponent"]
+
+/-- **Regenerated fact: no other method of a structural component reads character data** (complete table of the reads of
+    `Text`, `MixedContent`, `GetTextContent`, `GetMixedContent` outside the parser, with the receiver type of each function) -/
+theorem C12_text_reads :
+    ∀ r ∈ Gomjml.Gen.TextReads.textReads, r.2.1 ∈ structuralTypes → r ∈ structuralTextReads := by decide
+
+/-- non-vacuity: the table has the reads of the content components too (they are not structural) -/
+example : ("mjml/components.(*MJButtonComponent).Render", "mjml/components.MJButtonComponent", "GetMixedContent()", "as-is") ∈ Gomjml.Gen.TextReads.textReads := by decide
 
 end Gomjml.Props.C12
